@@ -1,5 +1,6 @@
 """A.2 — remove routines and deferral (RM, DEF-DECIDE, DEF-REEXAM, DEF-TAKE, DEF-MERGE)."""
 from ..core import rule
+from ..terms import drop_lv
 from .common import *
 from .gates import _gate_eval, GATED
 
@@ -302,6 +303,46 @@ def rm(ctx):
                                    line=block_line(it, good[0][0]), props=['C05'])
                         else:
                             ctx.fail(inst + '/nested-reset', body, 'a surviving key can skip the nested reset', line=line, props=['C05'])
+
+
+@rule('RM-CALL', {
+    'C04': 'the remove routine must be handed exactly the members and the clock of the Rm op',
+    'C05': 'same for Map key removes',
+    'C08': 'the pending table is keyed by that clock',
+}, floor=2)
+def rm_call(ctx):
+    """apply(Rm{clock, elements}) hands the op's elements and the op's clock to the remove routine on every path."""
+    facts = ctx.facts
+    for inst, adt, op_adt, _ in TYPES:
+        body = ctx.method(adt, 'CmRDT', 'apply')
+        it = interp(facts, body)
+        rm_uids = set(b.uid for b, _, _ in rm_routines(facts, adt))
+        vn = variants(facts, op_adt)
+        rc = Reach(facts, body, Evaluator(facts, bool_atom=discr_atom_of_param(2), assumption={'variant': vn.index('Rm')}))
+        props = ['C08', EL[inst]]
+        if body.uid in rm_uids:
+            ctx.ok(inst, body, 'the remove routine is inline in apply', props=props, nontrivial=False)
+            continue
+        good = []
+        why = 'the Rm arm never calls the remove routine'
+        for bb, c in it.calls.items():
+            if cinfo(c.cid)['uid'] in rm_uids and bb in rc.reachable:
+                clocks = [a for a in c.args[1:] if param_path(a.val) and param_path(a.val)[0] == 2 and param_path(a.val)[1][-1:] == ('Rm.clock',)]
+                elems = []
+                for a in c.args[1:]:
+                    v = drop_lv(a.val)
+                    pp = param_path(v)
+                    if pp and pp[0] == 2 and pp[1] and pp[1][-1].startswith('Rm.') and pp[1][-1] != 'Rm.clock':
+                        elems.append(a)
+                    elif is_call(v, 'collect') and v[2] and whole_iteration_over(v[2][0], 2) and not iter_source(v[2][0])[2]:
+                        bp = param_path(iter_source(v[2][0])[0])
+                        if bp[1] and bp[1][-1].startswith('Rm.') and bp[1][-1] != 'Rm.clock':
+                            elems.append(a)
+                if clocks and elems:
+                    good.append(bb)
+                else:
+                    why = 'the remove routine is called with %s instead of the op\'s elements and clock' % [fmt(a.val, 3) for a in c.args[1:]]
+        ctx.check(bool(good) and rc.must_pass(good), inst, body, 'remove routine receives (op elements, op clock)', why, props=props)
 
 
 def _reexam_ok(facts, it, r, rc, start_blocks):
